@@ -1063,13 +1063,30 @@ impl H {
         let lock = if self.rng.bool() { Some(LockRequest::new(owner(1 + self.rng.below(2) as u8), 1 + self.rng.below(5) as u32)) } else { None };
         if let Some((a, p)) = self.q_propose(d, true, lock) {
             let usk = self.accts[a].usk.clone();
+            // one pending transaction in three never expires (expiry height 0)
+            let never = self.rng.chance(1, 3);
+            let net = self.st.network().clone();
             let r = catch(|| {
-                self.st.create_proposed_transactions::<Infallible, _, Infallible, _>(&usk, OvkPolicy::Sender, &p)
+                zcash_client_backend::data_api::wallet::create_proposed_transactions::<_, _, Infallible, _, Infallible, _>(
+                    self.st.wallet_mut(),
+                    &net,
+                    &sapling::prover::mock::MockSpendProver,
+                    &sapling::prover::mock::MockOutputProver,
+                    &zcash_client_backend::data_api::wallet::SpendingKeys::from_unified_spending_key(usk.clone()),
+                    OvkPolicy::Sender,
+                    &p,
+                    if never { Some(BlockHeight::from_u32(0)) } else { None },
+                )
             });
             match r {
                 Some(Ok(txids)) => {
-                    self.pending.push(txids[0]);
-                    self.bump("op_pending_created");
+                    if never {
+                        // kept unmined for the rest of the history
+                        self.bump("op_pending_created_expiry0");
+                    } else {
+                        self.pending.push(txids[0]);
+                        self.bump("op_pending_created");
+                    }
                 }
                 _ => self.bump("op_pending_create_failed"),
             }
@@ -1162,9 +1179,10 @@ impl H {
                 }
                 0..=5 => self.op_receive(scan_now),
                 6..=8 => {
-                    let n = match self.rng.below(6) {
+                    let n = match self.rng.below(7) {
                         0 => 10,
                         1 => 41,
+                        6 => 55,
                         _ => 1 + self.rng.below(4) as usize,
                     };
                     self.op_empty(n, scan_now)
